@@ -53,6 +53,36 @@ def probe_obligation(rep):
     return out
 
 
+def effect_provenance(rep, probe_out):
+    """rsx + z3 (the effect-trace engine of C19 / C18): the operations of s3.rs are executed symbolically and every mutating file-system
+    effect must target a path term built from the ADDRESSED bucket (or a temporary file / a record of the request's own upload); a copy
+    source's bucket may only be read.  A deviation is a violation when the native probe shows an escape, otherwise inconclusive."""
+    import C18sym
+    import rsx as _rsx
+    t0 = time.time()
+    try:
+        prog = C18sym.load_program()
+        findings, stats = C18sym.bucket_provenance(prog)
+    except (_rsx.Unsupported, _rsx.PathBudget, Inconclusive) as e:
+        rep.fail_inconclusive("effect provenance: %s" % e)
+        return
+    rep.encoded("crates/s3s-fs/src/s3.rs", "put_object, copy_object, delete_object(s), create_multipart_upload, upload_part(_copy), complete / abort (rsx effect traces)")
+    npaths = sum(v["paths"] for v in stats.values())
+    neff = sum(v["effects"] for v in stats.values())
+    rep.programs += npaths
+    name = ("effect provenance: on every path of 9 writing operations (%d paths, %d effects) each created / written / renamed / removed path is a term of "
+            "the addressed bucket, a temporary file or a record of the request's own upload id" % (npaths, neff))
+    if not findings:
+        rep.obligation(name, "rsx+z3", "holds", time.time() - t0, detail=stats, queries=npaths, states=npaths)
+        return
+    native = bool(probe_out and probe_out["violations"])
+    for k, (what, wit) in sorted(findings.items()):
+        v = probe_out["violations"][0] if native else None
+        res = rep.violation(k, what + (" [real backend: %s on key %r %s]" % (v["op"], v["key"], v["what"]) if v else ""),
+                            rep.save_cex("effect_provenance", {"finding": k, "what": what, "witness": wit, "native": v}), confirmed=native)
+    rep.obligation(name, "rsx+z3", res, time.time() - t0, detail=dict(stats=stats, findings=sorted(findings)), queries=npaths, states=npaths)
+
+
 def run(rep, tier):
     rep.engines["z3"] = __import__("z3").get_version_string()
     try:
@@ -65,5 +95,6 @@ def run(rep, tier):
         rep.fail_inconclusive("no C17 harness available")
     out = probe_obligation(rep)
     C17flow.check(rep, natively_confirmed=bool(out and out["violations"]))
+    effect_provenance(rep, out)
     rep.out("the I/O itself (what the kernel does with the computed path: symlinks, races, case-insensitive file systems); "
             "keys longer than the harness bounds; percent-encoded spellings reduce to these keys through C12 (decoded once before the backend)")
